@@ -21,6 +21,7 @@ import (
 	"syscall"
 	"testing"
 	"time"
+	"unsafe"
 
 	"mosn.io/mosn/pkg/verifrt/vreport"
 )
@@ -58,6 +59,15 @@ const (
 	// allocation is orders of magnitude above 1 MiB for the large values of the boundary set.)
 	allocSlack   = 1 << 20
 	allocPerByte = 32
+	// cost oracle: one call on an input of at most costMaxInput bytes may burn at most costLimit of THREAD CPU
+	// time (clock_gettime(CLOCK_THREAD_CPUTIME_ID) of the locked OS thread that runs the call; unlike wall time
+	// it does not grow with the load of the machine). Legitimate calls cost microseconds (the maximum per part
+	// is reported as note max_thread_cpu_us_of_one_call); work driven by an announced count the input cannot
+	// hold costs ~25 ns per announced element (tars map: 2^24 entries = 0.4 s). The verdict is the MINIMUM over
+	// the three executions of the case (exact / 0xA5 / 0x3C buffers), i.e. the case is re-run twice before it is
+	// reported; a replay confirms at half the limit (hysteresis, so that a borderline finding reproduces).
+	costLimit    = 100 * time.Millisecond
+	costMaxInput = 1024
 )
 
 type viol struct {
@@ -74,10 +84,11 @@ type state struct {
 	Counts   map[string]int64 `json:"counts"`
 	VCounts  map[string]int64 `json:"vcounts"`
 	Samples  []Case           `json:"samples"`
-	Done     bool             `json:"done"`    // enumeration finished
-	Expired  bool             `json:"expired"` // budget hit
-	AbortIdx int              `json:"abort"`   // >=0: a call at this index did not return, process gave up
-	Next     int              `json:"next"`    // where to continue
+	Done     bool             `json:"done"`       // enumeration finished
+	Expired  bool             `json:"expired"`    // budget hit
+	AbortIdx int              `json:"abort"`      // >=0: a call at this index did not return, process gave up
+	MaxCPUus int64            `json:"max_cpu_us"` // largest thread CPU time of one call (minimum over the 3 executions of a case)
+	Next     int              `json:"next"`       // where to continue
 
 	distinct map[uint64]struct{}
 	outcomes map[string]struct{}
@@ -109,6 +120,18 @@ type obs struct {
 	panicked bool
 	pval     string
 	where    PanicSite
+	cpu      int64 // thread CPU nanoseconds of the call; -1 = not measurable
+}
+
+// threadCPU is the CPU time consumed so far by the calling OS thread (the caller must have called
+// runtime.LockOSThread), in nanoseconds; -1 if the clock is not available.
+func threadCPU() int64 {
+	const clockThreadCPUTimeID = 3
+	var ts syscall.Timespec
+	if _, _, e := syscall.Syscall(syscall.SYS_CLOCK_GETTIME, clockThreadCPUTimeID, uintptr(unsafe.Pointer(&ts)), 0); e != 0 {
+		return -1
+	}
+	return ts.Nano()
 }
 
 // dog is the watchdog: which call is running since when.
@@ -180,7 +203,13 @@ func kindOf(out string) string {
 func guarded(d *dog, sp *Spec, c Case, buf []byte) (o obs) {
 	d.enter(c)
 	defer d.leave()
+	t0 := threadCPU()
 	defer func() {
+		if t1 := threadCPU(); t0 >= 0 && t1 >= t0 {
+			o.cpu = t1 - t0
+		} else {
+			o.cpu = -1
+		}
 		if r := recover(); r != nil {
 			o.panicked = true
 			o.pval = fmt.Sprint(r)
@@ -277,6 +306,30 @@ func checkCase(st *state, d *dog, sp *Spec, c Case) {
 			fmt.Sprintf("same %d input bytes, spare capacity filled with 0xA5 vs 0x3C: outcomes differ, so the decoder read outside the received bytes.\n A: %s\n B: %s\n frame %q, %s; input=%s",
 				len(in), clip(a.out, 400), clip(b.out, 400), c.Frame, c.Desc, clip(c.Hex, 600)), c)
 	}
+	// (a call whose allocation is over the allocation pre-filter is the allocation oracle's business: zeroing
+	// hundreds of MiB costs CPU too, but only when the heap has memory to reuse - not in a fresh replay process)
+	allocOver := measure && m1-m0 > uint64(allocSlack+allocPerByte*len(in))/4*3
+	if len(in) <= costMaxInput && !allocOver && x.cpu >= 0 && a.cpu >= 0 && b.cpu >= 0 && kindOf(a.out) != "livelock" {
+		cost := x.cpu
+		if a.cpu < cost {
+			cost = a.cpu
+		}
+		if b.cpu < cost {
+			cost = b.cpu
+		}
+		if cost/1000 > st.MaxCPUus {
+			st.MaxCPUus = cost / 1000
+		}
+		limit := int64(costLimit)
+		if vreport.Replaying() {
+			limit /= 2
+		}
+		if cost > limit {
+			st.violation(fmt.Sprintf("%s class=%s cost: Decode of an input of at most 1 KiB burned more than 100 ms of CPU (announced count the input cannot hold)", c.Target, c.Class),
+				fmt.Sprintf("one call on %d received bytes burned %d / %d / %d ms of thread CPU time in three executions (limit %d ms; legitimate calls cost microseconds): the work is driven by a count or length the input announces but cannot hold; outcome %s; frame %q, %s; input=%s",
+					len(in), x.cpu/1e6, a.cpu/1e6, b.cpu/1e6, limit/1e6, clip(a.out, 200), c.Frame, c.Desc, clip(c.Hex, 600)), c)
+		}
+	}
 	if measure && kindOf(a.out) != "livelock" { // (a call the harness itself cut off as never-returning is not measured)
 		limit := uint64(allocSlack + allocPerByte*len(in))
 		if vreport.Replaying() {
@@ -341,6 +394,7 @@ func Main(t *testing.T, sp Spec) {
 			os.Exit(0)
 		}}
 		go d.watch()
+		runtime.LockOSThread() // thread CPU time of the calls = CPU time of this goroutine
 		checkCase(st, d, &sp, rc)
 		p.End(true, "replay", "replay of one recorded case")
 		return
@@ -411,6 +465,7 @@ func child(sp Spec) {
 		os.Exit(3)
 	}
 	go d.watch()
+	runtime.LockOSThread() // thread CPU time of the calls = CPU time of this goroutine
 	idx := -1
 	var pb [8]byte
 	complete := true
@@ -455,6 +510,7 @@ func parent(t *testing.T, sp Spec) {
 	from := 0
 	complete := false
 	restarts := 0
+	var maxCPUus int64
 	for {
 		outp := fmt.Sprintf("%s/out-%d.jsonl", dir, restarts)
 		progp := fmt.Sprintf("%s/progress-%d", dir, restarts)
@@ -485,6 +541,9 @@ func parent(t *testing.T, sp Spec) {
 		}
 		if st != nil {
 			merge(p, st)
+			if st.MaxCPUus > maxCPUus {
+				maxCPUus = st.MaxCPUus
+			}
 			if st.Done {
 				complete = true
 				break
@@ -532,6 +591,7 @@ func parent(t *testing.T, sp Spec) {
 		}
 	}
 	p.Note("child_restarts", restarts)
+	p.Note("max_thread_cpu_us_of_one_call", maxCPUus)
 	p.End(complete, sp.Bound, sp.Rule)
 }
 
